@@ -1,5 +1,5 @@
 (* C08/Properties.v — the property theorems, nothing else. *)
-From Verif Require Import Common.Base C08.Model C08.Json Generated.OtlpProto Generated.C08JsonDecoders Generated.C08T1 C08.Proofs.
+From Verif Require Import Common.Base C08.Model C08.Json Generated.OtlpProto Generated.C08JsonDecoders Generated.C08T1 C08.Proofs C08.Harness C08.Proofs13.
 Local Open Scope N_scope.
 
 (* ---- bit level -------------------------------------------------------------------------- *)
@@ -111,17 +111,45 @@ Print Assumptions wrappers.
    (jok: every field the marshaler emits for v has a decoder case with the right reader, every
    double is a non-NaN or the one NaN JSON can say) and that carries no deprecated scope field. *)
 Theorem json_roundtrip : forall (S : schema) (D : list jdec) (E : enums), wf_schema S = true ->
-  forall m v, canonical S m v = true -> jok S D m v = true -> migrate S m v = v ->
+  forall m v, canonical S m v = true -> jok S D m v = true -> no_deprecated S m v = true ->
   of_json S D E m (to_json S m v) = Some v.
-Proof. exact json_roundtrip_l. Qed.
+Proof. exact json_roundtrip_nd_l. Qed.
 Print Assumptions json_roundtrip.
 
 (* decoding the JSON form and encoding the result as protobuf gives the bytes of the original *)
 Theorem json_proto_agree : forall (S : schema) (D : list jdec) (E : enums), wf_schema S = true ->
-  forall m v, canonical S m v = true -> jok S D m v = true -> migrate S m v = v ->
+  forall m v, canonical S m v = true -> jok S D m v = true -> no_deprecated S m v = true ->
   option_map (encode S m) (of_json S D E m (to_json S m v)) = Some (encode S m v).
-Proof. exact json_proto_agree_l. Qed.
+Proof. exact json_proto_agree_nd_l. Qed.
 Print Assumptions json_proto_agree.
+
+(* JSON fixed point, PARTIAL: whatever the JSON decoder builds is a fixed point of MarshalJSON;UnmarshalJSON
+   provided it is canonical, supported by the table and without deprecated field.  Missing: "what of_json
+   builds is canonical" (the JSON analogue of proto_decode_canonical).  Harness kinds 5 and 6 evaluate the
+   conclusion on every accepted document whose decoded value is canonical. *)
+Theorem json_decode_fixpoint_partial : forall (S : schema) (D : list jdec) (E : enums), wf_schema S = true ->
+  forall m j v, of_json S D E m j = Some v ->
+  canonical S m v = true -> jok S D m v = true -> no_deprecated S m v = true ->
+  of_json S D E m (to_json S m v) = Some v.
+Proof. exact json_decode_fixpoint_partial_l. Qed.
+Print Assumptions json_decode_fixpoint_partial.
+
+(* the alternate forms at the level of a field: whatever the integer token (in range or not), a field read
+   by a dual reader gives the same result for the number and the string form; an enum field the same
+   for a name of its map and that name's number *)
+Theorem json_int64_forms_field : forall E rec e m d cur k z,
+  fty d = TScalar k -> is64 k = true -> forms_ok d e = true ->
+  oj_one E rec e m d cur (JInt z) = oj_one E rec e m d cur (JIntStr z).
+Proof. exact json_int64_forms_field_l. Qed.
+Print Assumptions json_int64_forms_field.
+
+Theorem json_enum_forms_field : forall E rec e m d cur name value,
+  fty d = TScalar SEnum -> forms_ok d e = true ->
+  find (fun p => list_eqb N.eqb (fst p) name) (enum_names E m (fnum d)) = Some (name, value) ->
+  in_range SEnum value = true ->
+  oj_one E rec e m d cur (JStr name) = oj_one E rec e m d cur (JInt (sgn64 value)).
+Proof. exact json_enum_forms_field_l. Qed.
+Print Assumptions json_enum_forms_field.
 
 (* a 64-bit integer written as a number or as a string is read to the same value by a dual reader;
    an enum written as its name or as its number likewise *)
@@ -152,6 +180,19 @@ Theorem json_int_range : forall e names k z,
 Proof. exact json_int_range_l. Qed.
 Print Assumptions json_int_range.
 
+(* entries of one object that interact: when two keys of an object are members of the same oneof group
+   (e.g. "gauge" and "sum" of a metric, "asInt" and "asDouble" of a data point, two alternatives of an
+   AnyValue, or the same member twice), the document decodes exactly as if only the LATER entry were
+   there — the earlier member is replaced, never merged into or read through.  Case kind 6 compares
+   this two-sidedly with the implementation for every ordered pair of members of every oneof group. *)
+Theorem json_oneof_last_wins : forall (S : schema) (D : list jdec) (E : enums) m k1 x1 k2 x2 rest cur e1 e2 i1 d1 i2 d2 g v1,
+  jlookup D m k1 = Some e1 -> find_field (mfields (msg S m)) (jfnum e1) 0 = Some (i1, d1) -> fcd d1 = COneof g ->
+  jlookup D m k2 = Some e2 -> find_field (mfields (msg S m)) (jfnum e2) 0 = Some (i2, d2) -> fcd d2 = COneof g ->
+  oj_slot E (oj_val S D E) e1 m d1 (nth i1 cur VNone) x1 = Some v1 ->
+  oj_fields S D E m ((k1, x1) :: (k2, x2) :: rest) cur = oj_fields S D E m ((k2, x2) :: rest) cur.
+Proof. exact json_oneof_last_wins_l. Qed.
+Print Assumptions json_oneof_last_wins.
+
 (* ---- JSON instance obligations: the decoder table is re-observed on the running decoders and
    these are re-proved on every check run --------------------------------------------------------- *)
 (* covers: the decoder table covers EVERY field of every message reachable from the four request
@@ -175,50 +216,63 @@ Proof. exact otlp_enums_l. Qed.
 Print Assumptions otlp_json_enum_forms.
 
 Theorem otlp_json_roundtrip : forall m v,
-  canonical OtlpSchema m v = true -> jok OtlpSchema OtlpJsonDecoders m v = true -> migrate OtlpSchema m v = v ->
+  canonical OtlpSchema m v = true -> jok OtlpSchema OtlpJsonDecoders m v = true -> no_deprecated OtlpSchema m v = true ->
   of_json OtlpSchema OtlpJsonDecoders OtlpEnums m (to_json OtlpSchema m v) = Some v.
-Proof. exact (json_roundtrip_l OtlpSchema OtlpJsonDecoders OtlpEnums otlp_schema_wf_l). Qed.
+Proof. exact (json_roundtrip_nd_l OtlpSchema OtlpJsonDecoders OtlpEnums otlp_schema_wf_l). Qed.
 Print Assumptions otlp_json_roundtrip.
 
 (* ---- the public protobuf decode paths and the migration of the deprecated scope fields -------- *)
-(* Model.path_migrates says which public path runs otlp.MigrateX (ProtoUnmarshaler: no,
-   ExportRequest.UnmarshalProto: yes; the JSON paths, Json.of_json: yes); case kinds 1 and 2 of the
-   correspondence run tie that table to the four signals on every run. *)
+(* Model.path_migrates says which public path runs otlp.MigrateX after the generated Unmarshal: all of
+   them (ProtoUnmarshaler.UnmarshalX, ExportRequest.UnmarshalProto; the JSON paths are Json.of_json).
+   Case kinds 9 and 2 of the correspondence run tie that table to the four signals on every run. *)
 
-(* for a payload WITHOUT deprecated fields the migration is the identity, hence every public path
-   decodes the same bytes to the same payload (any schema) ... *)
+(* ALL public decode paths agree on EVERY byte string (deprecated fields or not): each is the generated
+   Unmarshal followed by the migration *)
+Theorem public_paths_agree : forall (S : schema) m b p q, decode_path S p m b = decode_path S q m b.
+Proof. exact public_paths_agree_l. Qed.
+Print Assumptions public_paths_agree.
+
+Theorem decode_path_is_migrate : forall (S : schema) p m b,
+  decode_path S p m b = option_map (migrate S m) (decode S m b).
+Proof. exact decode_path_is_migrate_l. Qed.
+Print Assumptions decode_path_is_migrate.
+
+(* for a payload WITHOUT deprecated fields the migration is the identity, so every public path gives
+   exactly what the generated Unmarshal gives (and both public encoders give the same bytes: `wrappers`) *)
 Theorem migrate_id : forall (S : schema) m v, no_deprecated S m v = true -> migrate S m v = v.
 Proof. exact migrate_id_l. Qed.
 Print Assumptions migrate_id.
 
-Theorem public_paths_agree : forall (S : schema) m b v,
+Theorem public_paths_plain : forall (S : schema) m b v,
   decode S m b = Some v -> no_deprecated S m v = true -> forall p, decode_path S p m b = Some v.
-Proof. exact public_paths_agree_l. Qed.
-Print Assumptions public_paths_agree.
+Proof. exact public_paths_plain_l. Qed.
+Print Assumptions public_paths_plain.
 
-(* ... and the two public encoders give the same bytes for every payload: theorem `wrappers` above. *)
+(* after EVERY public path, for EVERY byte string that decodes, no deprecated field is left (the four
+   request roots of the real schema); the migration is idempotent *)
+Theorem otlp_migrating_paths_clear : forall p m b v, In m request_roots ->
+  decode_path OtlpSchema p m b = Some v -> no_deprecated OtlpSchema m v = true.
+Proof. exact otlp_paths_clear_l. Qed.
+Print Assumptions otlp_migrating_paths_clear.
 
-(* the migrating paths leave no deprecated field behind and are idempotent, for the four request
-   roots of the real schema *)
-Theorem otlp_migrating_paths_clear : forall m v, In m request_roots -> res_shaped OtlpSchema m v = true ->
+Theorem otlp_migrate_idempotent : forall m v, In m request_roots -> res_shaped OtlpSchema m v = true ->
   no_deprecated OtlpSchema m (migrate OtlpSchema m v) = true
   /\ migrate OtlpSchema m (migrate OtlpSchema m v) = migrate OtlpSchema m v.
 Proof. exact otlp_migrate_clears_l. Qed.
-Print Assumptions otlp_migrating_paths_clear.
+Print Assumptions otlp_migrate_idempotent.
 
-(* profiles has no deprecated field: all its public paths coincide on every byte string *)
+(* profiles has no deprecated field: its public paths coincide with the generated Unmarshal *)
 Theorem otlp_profiles_paths_coincide : forall p b,
   decode_path OtlpSchema p m_collector_profiles_v1development_ExportProfilesServiceRequest b
   = decode OtlpSchema m_collector_profiles_v1development_ExportProfilesServiceRequest b.
 Proof. exact otlp_profiles_paths_l. Qed.
 Print Assumptions otlp_profiles_paths_coincide.
 
-(* REFUTED for logs, metrics and traces (finding C08-PBUNMARSHAL-NOMIGRATE): on the bytes of a legacy
-   sender ProtoUnmarshaler and ExportRequest.UnmarshalProto decode different payloads; the former
-   still carries the deprecated field, is canonical, and does not survive JSON. *)
-Theorem public_paths_agree_refuted : forallb paths_differ_on legacy_witnesses = true.
-Proof. exact otlp_paths_differ_l. Qed.
-Print Assumptions public_paths_agree_refuted.
+(* witnesses (non-vacuity): the bytes of a legacy sender carry the deprecated field, every public path
+   turns them into a payload without it that is canonical and survives JSON *)
+Theorem otlp_legacy_payloads_migrated : forallb legacy_ok legacy_witnesses = true.
+Proof. exact otlp_legacy_ok_l. Qed.
+Print Assumptions otlp_legacy_payloads_migrated.
 
 (* ---- translator T1 obligations: the hand-written pieces equal what the Go source says now ------ *)
 Theorem t1_varint_size_is_sov :
@@ -236,3 +290,9 @@ Print Assumptions t1_schema_id_lengths.
 Theorem t1_schema_enum_values : enum_values_ok = true /\ enum_fields_listed = true.
 Proof. split; [exact t1_enum_values|exact t1_enum_fields_listed]. Qed.
 Print Assumptions t1_schema_enum_values.
+
+(* ---- the clause checker run over the OBSERVED behaviour of the implementation (Harness.prop_ok: every
+   case of every run, and the failing-input search after a disagreement) decides exactly the clauses ---- *)
+Theorem prop_ok_sound : forall c, prop_ok c = true <-> Clause c.
+Proof. exact prop_ok_sound_l. Qed.
+Print Assumptions prop_ok_sound.
